@@ -198,7 +198,7 @@ MFlushEnd ==
   /\ kind = "sse" /\ mpc = "f1"
   /\ acc' = acc \ {"main"}
   /\ mu' = "free"
-  /\ mpc' = (CASE mtok.k = "pre" -> "startka" [] mtok.k = "next" -> "reset"
+  /\ mpc' = (CASE mtok.k = "pre" -> "startka" [] mtok.k \in {"next", "bad"} -> "reset"
                [] OTHER -> (IF StopKA THEN "close" ELSE "returned"))
   /\ UNCHANGED <<hvars, kind, n, ka, sink, cancelled, disc, got, mtok, dirty, kpc, tick, nticks, kastop, fin, uaf, mmvars>>
 
@@ -372,7 +372,7 @@ FinEnd ==
 
 \* the client closes the connection; net/http's background read cancels the request context
 Disconnect ==
-  /\ Disc /\ ~disc /\ mpc # "returned"
+  /\ Disc /\ ~disc /\ mpc \notin {"returned", "dead"}
   /\ disc' = TRUE /\ cancelled' = TRUE
   /\ UNCHANGED <<hvars, kind, n, ka, sink, mpc, got, tick, nticks, ssevars, mmvars>>
 
@@ -453,8 +453,9 @@ MMFlushTick ==
   /\ kind = "mm" /\ tpc = "run" /\ tick
   /\ tick' = FALSE
   /\ DoFlush
-  /\ crashed' = (crashed \/ FailIn)
-  /\ UNCHANGED <<failAt, req, carry, kind, n, ka, cancelled, disc, mpc, got, nticks, ssevars, dsig, tpc>>
+  /\ IF FailIn THEN crashed' = TRUE /\ mpc' = "dead" /\ tpc' = "stopped"    \* a dead process takes no further step
+               ELSE UNCHANGED <<crashed, mpc, tpc>>
+  /\ UNCHANGED <<failAt, req, carry, kind, n, ka, cancelled, disc, got, nticks, ssevars, dsig>>
 
 \* ticker goroutine: case <-a.done: return
 MMTickerStop ==
@@ -489,8 +490,7 @@ SseNext ==
   \/ Tick \/ KPingBegin \/ KPingEnd \/ KFlushBegin \/ KFlushEnd \/ KStop
 MmNext ==
   \/ MMRecvAdd \/ MMRecvNil \/ MMDoneSig \/ MMDoneFlush \/ MMTick \/ MMFlushTick \/ MMTickerStop
-\* a dead process takes no steps
-Next == ~crashed /\ (SseNext \/ MmNext \/ MBlobBegin \/ MBlobEnd \/ ServerCancel \/ FinBegin \/ FinEnd \/ Disconnect \/ NextRequest)
+Next == SseNext \/ MmNext \/ MBlobBegin \/ MBlobEnd \/ ServerCancel \/ FinBegin \/ FinEnd \/ Disconnect \/ NextRequest
 
 \* gqlgen's and net/http's own steps are fair, and so is the payload source
 \* (it yields its next payload or ends; it ends promptly once its context is
@@ -511,7 +511,7 @@ Spec == Init /\ [][Next]_vars /\ Fairness
 TypeOK ==
   /\ kind \in {"sse", "mm"} /\ n \in 0..MaxN /\ ka \in BOOLEAN
   /\ mpc \in {"w0", "w1", "f0", "f1", "startka", "recv", "reset", "close", "dsig", "dflush", "returned",
-             "pclose", "pf0", "pf1", "rec", "bw1", "pdsig", "pdflush"}
+             "pclose", "pf0", "pf1", "rec", "bw1", "pdsig", "pdflush", "dead"}
   /\ failAt \in 0..(MaxN + 1) /\ req \in 1..MaxReq /\ carry \in BOOLEAN /\ crashed \in BOOLEAN
   /\ got \in 0..(n + 1)
   /\ mu \in {"free", "main", "ka"} /\ acc \subseteq {"main", "ka", "srv"}
@@ -574,7 +574,8 @@ MmRun(s, i, st) ==
          [] st \in {"s0", "s1", "s2"} /\ x.k = "blob" /\ failAt > 0 -> MmRun(s, i + 1, "s5")  \* recovered encode failure ends the body
          [] OTHER -> "err"                                          \* in particular anything after the closing boundary
 MmState == MmRun(sink, 1, "s0")
-MmFramed == kind = "mm" => MmState # "err"
+\* (what a dying process still put on the wire is not judged: NoCrash is the property it violates)
+MmFramed == (kind = "mm" /\ ~crashed) => MmState # "err"
 RECURSIVE Ids(_, _)
 Ids(s, i) == IF i > Len(s) THEN <<>> ELSE (IF s[i].k \in {"init", "incr"} THEN s[i].ids ELSE <<>>) \o Ids(s, i + 1)
 MmOrder == kind = "mm" => LET d == Ids(sink, 1) IN \A j \in 1..Len(d) : d[j] = j - 1
